@@ -11,7 +11,7 @@ from concurrent.futures import ThreadPoolExecutor
 
 V = os.path.dirname(os.path.dirname(os.path.abspath(__file__)))
 BASE = "/tmp/sp"
-EXTRA = {"C18-4": ["C18", "C19"], "C06-12": ["C06", "C07"], "C20-10": ["C20", "C19"], "C10-7": ["C10", "C08"]}
+EXTRA = {"C18-4": ["C18", "C19"], "C06-12": ["C06", "C07"], "C20-10": ["C20", "C19"], "C10-7": ["C10", "C08"], "C13-14": ["C13", "C05"], "C18-13": ["C18", "C20"], "C18-14": ["C18", "C19"]}
 
 
 def sh(cmd, **kw):
